@@ -1,7 +1,8 @@
 """C19 — directory hashsums identify directory content (P-tier: hashing kernel; whole-tree walk is bounded)."""
-from . import dirhash, hashing
+from . import dirhash, hashing, packerpg
 
 
 def build(reg):
     specs = hashing.add_all(reg) + dirhash.add_dirhash(reg)
-    return {"verify": specs, "lemmas": [], "trusted": hashing.TRUSTED + dirhash.T_DIR + dirhash.T_LINK, "assumptions": ["bytes modelled as z3 strings over code points 0..255"]}
+    specs += [x for x in packerpg.add_packerpg(reg) if 'C19' in x.props]  # where the hashsums go: recorded in the container for the packed directory
+    return {"verify": specs, "lemmas": [], "trusted": hashing.TRUSTED + dirhash.T_DIR + dirhash.T_LINK + packerpg.T_PACKER, "assumptions": ["bytes modelled as z3 strings over code points 0..255"]}
